@@ -915,7 +915,8 @@ def _interp_fp(t, env):
 def _is_int_tree(t):
     if t.op in ('var', 'const'):
         return True
-    if t.op in ('floordiv', 'add', 'sub', 'mul', 'neg'):
+    if t.op in ('floordiv', 'add', 'sub', 'mul', 'neg', 'toint', 'ceil',
+                'floor'):       # int()/ceil/floor of an integer: identity
         return all(_is_int_tree(a) for a in t.args)
     return False
 
@@ -929,6 +930,8 @@ def _interp_lia(t, env):
     a = [_interp_lia(x, env) for x in t.args]
     if op == 'neg':
         return -a[0]
+    if op in ('toint', 'ceil', 'floor'):
+        return a[0]
     if op == 'add':
         return a[0] + a[1]
     if op == 'sub':
